@@ -333,3 +333,28 @@ func VHC19Match() {
 	vh.Reach("no case matched")
 	vh.Assert(k == OK && isNull(cell) && out == "", "C19: no matching case yields null and runs nothing")
 }
+
+var c19UnsetProgs = [][2]string{
+	// a literal pattern matches when `subject == literal`: for an unset subject that is false for every literal
+	{"BEGIN { print match (nosuch) { 0 => 'zero', z => 'any' } }", "any\n"},
+	{"BEGIN { print match (nosuch) { '' => 'empty', false => 'false', null => 'null', z => 'any' } }", "any\n"},
+	{"BEGIN { print match ([nosuch, 1]) { [0, 1] => 'zero', [a, 1] => 'pair', z => 'other' } }", "pair\n"},
+	{"BEGIN { print match (nosuch) { z => z is unknown } }", "true\n"},
+	{"BEGIN { print match (nosuch) { 1, 2 => 'num' } is null }", "true\n"},
+	{"{ print match ($.missing) { 0 => 'zero', null => 'null', z => 'any' } }", "null\n"},
+	// names of builtins and functions used as pattern names are ordinary bindings, also one level down
+	{"BEGIN { print match (5) { num => match (1) { one => num + one } } }", "6\n"},
+	{"BEGIN { print match (2) { json => [json, match (0) { z => json }] } }", "[2, 2]\n"},
+	{"function f() { return 9 }\nBEGIN { print match (3) { f => [f, match (0) { z => f + 1 }] } }", "[3, 4]\n"},
+	{"BEGIN { print match (4) { printf => match ([printf]) { [length] => length + printf } } }", "8\n"},
+}
+
+// VHC19Unset: an unset subject (or element) is matched by identifiers and by no literal;
+// pattern names that coincide with builtins or functions are ordinary bindings.
+func VHC19Unset() {
+	c := c19UnsetProgs[vh.Choose("case", len(c19UnsetProgs))]
+	out, k := runProg(c[0], map[string]any{"a": 1.0})
+	vh.Reach("special subject evaluated")
+	vh.Assert(k == OK, "C19: the match runs: "+lbl(c[0]))
+	vh.Assert(out == c[1], "C19: "+lbl(c[0]))
+}
